@@ -33,9 +33,9 @@ theorem alookup_ext [BEq κ] (k : κ) (x L : List (κ × ν)) (h : (alookup k L)
 theorem loadAvps_ext (available : List (Nat × Nat)) (app : Nat) :
     ∀ (rows : List AvpRow) (p : Parser), Ext p (loadAvps available app rows p).1
   | [], p => by simp [loadAvps]; exact Ext.refl p
-  | (name, code, vendor, must, tyName) :: r, p => by
+  | (name, code, vendor, must, tyName, items) :: r, p => by
     simp only [loadAvps]
-    generalize hp0 : ({ p with avpname := ((app, name, UndefinedVendorID), ({ name, code, vendor, must, tyName, ty := (resolveType available tyName).getD 0, app } : AvpDef)) :: ((app, name, vendor), { name, code, vendor, must, tyName, ty := (resolveType available tyName).getD 0, app }) :: p.avpname, avpcode := ((app, code, UndefinedVendorID), { name, code, vendor, must, tyName, ty := (resolveType available tyName).getD 0, app }) :: ((app, code, vendor), { name, code, vendor, must, tyName, ty := (resolveType available tyName).getD 0, app }) :: p.avpcode } : Parser) = p0
+    generalize hp0 : ({ p with avpname := ((app, name, UndefinedVendorID), ({ name, code, vendor, must, tyName, items, ty := (resolveType available tyName).getD 0, app } : AvpDef)) :: ((app, name, vendor), { name, code, vendor, must, tyName, items, ty := (resolveType available tyName).getD 0, app }) :: p.avpname, avpcode := ((app, code, UndefinedVendorID), { name, code, vendor, must, tyName, items, ty := (resolveType available tyName).getD 0, app }) :: ((app, code, vendor), { name, code, vendor, must, tyName, items, ty := (resolveType available tyName).getD 0, app }) :: p.avpcode } : Parser) = p0
     have h0 : Ext p p0 := by
       rw [← hp0]
       exact ⟨⟨[_, _], rfl⟩, ⟨[_, _], rfl⟩, ⟨[], rfl⟩, ⟨[], rfl⟩, ⟨[], rfl⟩⟩
@@ -209,12 +209,12 @@ theorem app_mono (p p' : Parser) (h : Ext p p') (hc : AppCons p) (code : Nat) (t
 theorem loadAvps_apps (available : List (Nat × Nat)) (app : Nat) : ∀ (rows : List AvpRow) (p : Parser),
     (loadAvps available app rows p).1.appcode = p.appcode ∧ (loadAvps available app rows p).1.apptype = p.apptype
   | [], p => by simp [loadAvps]
-  | (name, code, vendor, must, tyName) :: r, p => by
+  | (name, code, vendor, must, tyName, items) :: r, p => by
     simp only [loadAvps]
     cases resolveType available tyName with
     | none => exact ⟨rfl, rfl⟩
     | some t =>
-      have := loadAvps_apps available app r ({ p with avpname := ((app, name, UndefinedVendorID), ({ name, code, vendor, must, tyName, ty := (some t).getD 0, app } : AvpDef)) :: ((app, name, vendor), { name, code, vendor, must, tyName, ty := (some t).getD 0, app }) :: p.avpname, avpcode := ((app, code, UndefinedVendorID), { name, code, vendor, must, tyName, ty := (some t).getD 0, app }) :: ((app, code, vendor), { name, code, vendor, must, tyName, ty := (some t).getD 0, app }) :: p.avpcode } : Parser)
+      have := loadAvps_apps available app r ({ p with avpname := ((app, name, UndefinedVendorID), ({ name, code, vendor, must, tyName, items, ty := (some t).getD 0, app } : AvpDef)) :: ((app, name, vendor), { name, code, vendor, must, tyName, items, ty := (some t).getD 0, app }) :: p.avpname, avpcode := ((app, code, UndefinedVendorID), { name, code, vendor, must, tyName, items, ty := (some t).getD 0, app }) :: ((app, code, vendor), { name, code, vendor, must, tyName, items, ty := (some t).getD 0, app }) :: p.avpcode } : Parser)
       exact this
 
 theorem loadCmds_apps (app : Nat) : ∀ (rows : List CmdRow) (p : Parser),
